@@ -75,6 +75,21 @@ def fld(e, case, sp, lang):
     return sp.pick(forms)
 
 
+def strip_outer(text):
+    """Remove one pair of parentheses enclosing the whole text (a top-level operator is then not parenthesised)."""
+    if len(text) >= 2 and text[0] == '(' and text[-1] == ')':
+        depth = 0
+        for i, ch in enumerate(text):
+            if ch == '(':
+                depth += 1
+            elif ch == ')':
+                depth -= 1
+                if depth == 0 and i != len(text) - 1:
+                    return text
+        return text[1:-1]
+    return text
+
+
 def expr(e, case, sp, lang='py'):
     k = e[0]
     X = lambda i: expr(e[i], case, sp, lang)  # noqa: E731
@@ -103,6 +118,8 @@ def expr(e, case, sp, lang='py'):
         return '(%s is None)' % X(1) if py else '(%s === null)' % X(1)
     if k == 'not':
         return '(not %s)' % X(1) if py else '(!%s)' % X(1)
+    if k == 'or':
+        return '(%s or %s)' % (X(1), X(2)) if py else '(%s || %s)' % (X(1), X(2))
     if k == 'and':
         return '(%s and %s)' % (X(1), X(2)) if py else '(%s && %s)' % (X(1), X(2))
     if k == 'nrodd':
@@ -115,6 +132,8 @@ def expr(e, case, sp, lang='py'):
         return 'max([%s, %s])' % (X(1), X(2))
     if k == 'bsum':
         return 'sum([%s, %s])' % (X(1), X(2))
+    if k == 'idx0':
+        return '[%s, %s][0]' % (X(1), strip_outer(X(2)))
     if k == 'udf':
         return 'udf1(%s)' % X(1)
     if k == 'poison':
@@ -148,7 +167,8 @@ AGG_SPELL = {'COUNT': ['COUNT', 'count', 'Count'], 'MIN': ['MIN', 'min', 'Min'],
 def item(it, case, sp, lang, first):
     k = it[0]
     if k == 'e':
-        return expr(it[1], case, sp, lang)
+        t = expr(it[1], case, sp, lang)
+        return strip_outer(t) if (it[1][0] in ('or', 'and', 'eq', 'ne', 'cat') and ',' not in t and sp.pick([True, False])) else t
     if k == 'star':
         return '*'
     if k == 'astar':
@@ -167,7 +187,10 @@ def item(it, case, sp, lang, first):
     if k == 'aggattr':
         return '%s(%s).strip()' % (sp.pick(AGG_SPELL[it[1]][:2]), expr(it[2], case, sp, lang)) if lang == 'py' else '%s(%s).trim()' % (sp.pick(AGG_SPELL[it[1]][:2]), expr(it[2], case, sp, lang))
     if k == 'as':
-        return '%s %s %s' % (item(it[1], case, sp, lang, first), sp.pick(['as', 'AS']), it[2])
+        inner = item(it[1], case, sp, lang, first)
+        if it[1][0] == 'e' and it[1][1][0] in ('or', 'and', 'eq'):
+            inner = strip_outer(expr(it[1][1], case, sp, lang))
+        return '%s %s %s' % (inner, sp.pick(['as', 'AS']), it[2])
     raise ValueError(it)
 
 
@@ -216,7 +239,10 @@ def render_query(case, sp=None, lang='py'):
             pairs.append((r + eq + l) if swap else (l + eq + r))
         clauses.append(kw(sp.pick(jw), sp) + ' ' + sp.pick(['B', 'b']) + ' ' + kw('ON', sp) + ' ' + (' ' + kw('AND', sp) + ' ').join(pairs))
     if q['where'] != ['true']:
-        clauses.append(kw('WHERE', sp) + ' ' + expr(q['where'], case, sp, lang))
+        wt = expr(q['where'], case, sp, lang)
+        if q['where'][0] in ('or', 'and', 'eq', 'ne') and sp.pick([True, False]):
+            wt = strip_outer(wt)        # a top-level operator without enclosing parentheses
+        clauses.append(kw('WHERE', sp) + ' ' + wt)
     if q['order']:
         o = kw('ORDER BY', sp) + ' ' + ', '.join(expr(e, case, sp, lang) for e in q['order'])
         if q['desc']:
